@@ -354,6 +354,19 @@ class C21(Mode):
                         o = A(st[1])
                         if o is not None:
                             o.load()
+                    elif op == 'lock_get':
+                        # the row is fetched again, this time locked (SQLite: the session turns immediate); what the
+                        # session has read from it before must still hold, or the fetch has to fail loudly
+                        n = NAMES[st[1] % 3]
+                        o = Acct.get_for_update(name=n)
+                        if o is not None:
+                            acc.setdefault(n, o)
+                    elif op == 'lock_sel':
+                        n = NAMES[st[1] % 3]
+                        lst = select(a for a in Acct if a.name == n).for_update()[:] if st[2] % 2 else \
+                            select(a for a in Acct).for_update()[:]
+                        for a in lst:
+                            acc.setdefault(a.name, a)
                     elif op == 'prefetch':
                         for a in select(a for a in Acct).prefetch(Acct.items)[:]:
                             acc.setdefault(a.name, a)
